@@ -1197,6 +1197,14 @@ static void DecodeIntelDx(tLayoutCtx* pLayoutCtx) {
     tStrComp* pArg;
     Boolean   OK;
 
+    /* callers set up the handlers per address unit size of the current segment;
+       none are present for sizes they do not provide for (e.g. four bytes) */
+
+    if (!pLayoutCtx->Replicate) {
+        WrStrErrorPos(ErrNum_InstructionNotSupported, &OpPart);
+        return;
+    }
+
     pLayoutCtx->DSFlag       = DSNone;
     pLayoutCtx->FullWordSize = Grans[ActPC];
     pLayoutCtx->ElemsPerFullWord
